@@ -3,7 +3,6 @@ package props
 import (
 	"context"
 	"fmt"
-	"sync"
 
 	"github.com/form3tech-oss/f1/v2/pkg/f1"
 	f1testing "github.com/form3tech-oss/f1/v2/pkg/f1/testing"
@@ -95,8 +94,6 @@ func c20Run(c *core.Case, o *core.Outcome) {
 	spec.IgnoreDropped = true
 	ctx, cancel := context.WithCancel(context.Background())
 	defer cancel()
-	var mu sync.Mutex
-	_ = mu
 	r := engine.Execute(ctx, spec, l, f1.CombineScenarios(comps...), nil, nil)
 	if r.NewErr != nil {
 		o.Inconc("harness: cannot build run: %v", r.NewErr)
